@@ -648,6 +648,114 @@ pub fn max_counter_corpus() -> Vec<String> {
     v
 }
 
+
+// ---------------------------------------------------------------- structure-aware wire tampering (C04 / C07)
+
+/// number of nodes of the value tree of the honest record (kind, content, payment)
+fn tree_nodes(kind: &str, rk: u64, content: &str, pay: &str, client: bool) -> usize {
+    use crate::world::*;
+    let Some(c) = parse_content(content) else { return 0 };
+    let Some(p) = parse_pay(pay) else { return 0 };
+    let built = p.as_ref().map(|p| build_pay(p, key_xorname(derived_key(&c).unwrap_or(rk)), 1));
+    let rec = build_record(kind, rk, &c, built.as_ref(), client);
+    if rec.value.len() < 3 {
+        return 0;
+    }
+    // an honest record must survive the generic decode / encode round trip byte for byte
+    match crate::wire::decode(&rec.value[2..]) {
+        Some(t) if crate::wire::encode(&t) == rec.value[2..] => t.nodes().len(),
+        _ => 0,
+    }
+}
+
+/// For every record kind and path: two honest records r_A (identity 0) and r_B (identity 1); every node of
+/// r_A's value tree is replaced in turn by r_B's subtree (variant b) and by arbitrary same-shape values
+/// (variants 0 1 2); the result is presented under A's key and under B's key, with nothing held and with
+/// both keys holding older honest content.
+pub fn tamper_lines(n: u64, rng: &mut Rng) -> Vec<String> {
+    let pay = format!("{};0.1.2", GOOD.join(","));
+    // (kind, client?, key A, key B, content A, content B, store with both keys held)
+    let cfgs: Vec<(&str, bool, u64, u64, &str, &str, &str)> = vec![
+        ("pad", false, 1, 4, "S0.5.v", "S1.5.v", "1=S3,4=S3"),
+        ("pad", true, 1, 4, "S0.5.v", "S1.5.v", "1=S3,4=S3"),
+        ("tx", false, 1, 4, "T0.1.v,0.2.v", "T1.1.v,1.2.v", "1=T4,4=T4"),
+        ("reg", false, 2, 5, "R0.g.1v", "R1.g.1v", "2=R2,5=R2"),
+        ("reg", true, 2, 5, "R0.g.1v", "R1.g.1v", "2=R2,5=R2"),
+        ("chunk", false, 0, 3, "C0", "C1", "-"),
+        ("padp", true, 1, 4, "S0.5.v", "S1.5.v", "1=S3,4=S3"),
+        ("txp", true, 1, 4, "T0.1.v", "T1.1.v", "1=T4,4=T4"),
+        ("regp", true, 2, 5, "R0.g.1v", "R1.g.1v", "2=R2,5=R2"),
+        ("chunkp", true, 0, 3, "C0", "C1", "-"),
+    ];
+    let mut small = vec![];
+    let mut big = vec![];
+    for (kind, client, ka, kb, ca, cb, held) in cfgs {
+        let p = if kind.ends_with('p') { pay.as_str() } else { "-" };
+        let nodes = tree_nodes(kind, ka, ca, p, client);
+        let path = if client { "c" } else { "r" };
+        for node in 0..nodes {
+            for variant in ["b", "0", "1", "2"] {
+                for rk in [kb, ka] {
+                    for store in ["-", held] {
+                        if store == "-" && held == "-" && rk == ka && variant != "b" && false {
+                            continue;
+                        }
+                        let l = format!("tamper {store} {path} {kind} {rk} {ca} {p} {cb} {node} {variant}");
+                        if kind.ends_with('p') {
+                            big.push(l);
+                        } else {
+                            small.push(l);
+                        }
+                    }
+                }
+            }
+        }
+    }
+    small.dedup();
+    // the unpaid / replicated kinds completely (their trees are small), the paid ones sampled
+    let mut v = small;
+    rng.shuffle(&mut big);
+    let want = v.len() as u64 + n;
+    while (v.len() as u64) < want {
+        match big.pop() {
+            Some(l) => v.push(l),
+            None => break,
+        }
+    }
+    v
+}
+
+/// C07 corpus: same-owner transactions that differ in exactly one field (ids 1,2,3 share owner and content and
+/// differ in outputs / parents; 4,5,6 likewise with another content), delivered in several orders and groupings
+pub fn tx_family_corpus() -> Vec<String> {
+    let pay = format!("{};0.1.2", GOOD.join(","));
+    let orders: Vec<Vec<&str>> = vec![
+        vec!["r tx 1 T0.1.v -", "r tx 1 T0.2.v -", "r tx 1 T0.3.v -", "r tx 1 T0.4.v -"],
+        vec!["r tx 1 T0.3.v -", "r tx 1 T0.2.v -", "r tx 1 T0.1.v -"],
+        vec!["r tx 1 T0.2.v -", "r tx 1 T0.1.v -", "r tx 1 T0.1.v,0.2.v,0.3.v -"],
+        vec!["r tx 1 T0.1.v,0.2.v,0.3.v,0.4.v,0.5.v -", "r tx 1 T0.6.v,0.1.v -"],
+        vec!["r tx 1 T0.1.v,0.2.i,0.3.v -", "r tx 1 T0.2.v -"],
+    ];
+    let mut v = vec![];
+    for o in orders {
+        v.push("new -".to_string());
+        for d in o {
+            v.push(format!("deliver {d}"));
+            v.push("dump".to_string());
+        }
+    }
+    // paid uploads, one transaction each
+    v.push("new -".to_string());
+    for t in [2, 1, 3] {
+        v.push(format!("deliver c txp 1 T0.{t}.v {pay}"));
+        v.push("dump".to_string());
+    }
+    v.push("new 1=T1.2.3".to_string());
+    v.push("deliver r tx 1 T0.2.v -".to_string());
+    v.push("dump".to_string());
+    v
+}
+
 pub struct Gen {
     queue: VecDeque<String>,
     /// ids of validations begun in the current interleaved phase
@@ -676,6 +784,11 @@ impl Gen {
                 }
                 while (g.queue.len() as u64) < n + fixed {
                     let l = sample_case(&mut g.rng);
+                    g.queue.push_back(l);
+                }
+            }
+            "tamper" => {
+                for l in tamper_lines(n, &mut g.rng) {
                     g.queue.push_back(l);
                 }
             }
@@ -723,6 +836,9 @@ impl Gen {
                     g.queue.push_back(l);
                 }
                 for l in max_counter_corpus() {
+                    g.queue.push_back(l);
+                }
+                for l in tx_family_corpus() {
                     g.queue.push_back(l);
                 }
                 g.remaining_histories = n;
